@@ -23,8 +23,10 @@ import (
 	"encoding/json"
 	"errors"
 	"fmt"
+	"io"
 	"math/rand"
 	"os"
+	"runtime"
 	"sort"
 	"time"
 
@@ -36,6 +38,12 @@ import (
 const wait = 4 * time.Second
 
 const knownAssign = "Dev_AssignUnsorted"
+
+// knownLatePub: a surviving job publishes a complete checkpoint of the previous assembly after it has re-assembled
+// from an older one. Nothing protects the files that checkpoint names any more (the new assembly's databases and
+// NeedsTable rounds do not know it), yet the next recovery loads it. Once that has happened in a behaviour, what
+// goes wrong afterwards is this finding (taint); everything before it, and every behaviour without it, is not.
+const knownLatePub = "Dev_LatePublication"
 
 // ------------------------------------------------------------ config ----
 
@@ -51,6 +59,8 @@ type conf struct {
 	overlap                         bool       // trace mode: job snapshot writes are held and land in seeded order; checkpoints are started meanwhile
 	mem                             []int      // dkv memtable sizes to run with, one per behaviour / generation in turn (0 = the repo's default); empty: no tuning
 	lvl, amp                        int        // dkv.smallestLevelSize / dkv.maxSizeAmpPct under tuning (0 = default)
+	latePub                         bool       // Dev_LatePublication
+	survive                         bool       // Restart keeps the workers that were not killed (cluster.RestartSurvivors)
 	swapDelayUs                     int        // every third tuned generation: flush / compaction swaps are delayed by up to this many microseconds
 }
 
@@ -89,6 +99,8 @@ func readConf(in *mbt.Input) (*conf, error) {
 	c.mem = in.Ints("MemSizes")
 	c.lvl, c.amp = in.CfgInt("SmallestLevel", 0), in.CfgInt("MaxSizeAmpPct", 0)
 	c.swapDelayUs = in.CfgInt("SwapDelayUs", 0)
+	c.survive = in.CfgBool("Survive", false)
+	c.latePub = in.CfgBool("Dev_LatePublication", false)
 	if c.G > 0 {
 		gd := in.CfgInt("GroupDigits", 0)
 		c.group = digits(gd, ndigits(gd))
@@ -257,6 +269,13 @@ type run struct {
 	genW     map[int]int             // generation -> worker count
 	rng      *rand.Rand              // seeded per behaviour: when to let background flushes / compactions settle
 	turn     int                     // generations booted (selects the DKV tuning)
+	tainted    bool        // a checkpoint of a previous assembly was published after a survivors restart (knownLatePub)
+	latePub    bool        // config Dev_LatePublication: the model keeps a surviving job's snapshot writes in flight across the restart
+	nrestarts  int         // restarts executed so far
+	restartsAt map[int]int // checkpoint id -> restarts executed when its snapshot write was handed to storage
+	salt     int                     // a number that belongs to the behaviour itself (its length), not to its place in the input: what is chosen per behaviour (DKV tuning, id policy of replacements, settling coins) is the same when the behaviour is replayed alone
+	lastPos  map[string]int          // survivors: operator label -> its position in the previous assembly
+	late     map[[3]int]*gate.Arrival // survivors: calls of earlier assemblies still parked at an operator gate, by (epoch, r, o)
 	givens   int                     // handler invocations (events) expected so far
 	logFrom  int                     // log index from which arrivals/obs of the current step are searched
 	havePrev bool                    // the running job has a completed checkpoint in memory
@@ -266,8 +285,27 @@ type run struct {
 	step     int
 }
 
-func sr(r int) string { return fmt.Sprintf("sr%d", r-1) }
-func op(o int) string { return fmt.Sprintf("op%d", o-1) }
+// asm maps the model's positions (1-based, of the current assembly) to worker identities ("op<i>" / "sr<i>" /
+// "w<i>" of the kit): position p is worker asm[p-1]. Fresh generations: the identity; after a survivors restart the
+// living workers in the order of their operator ids (cluster.Assembly).
+var asm []int
+
+func ident(p int) int {
+	if p >= 1 && p <= len(asm) {
+		return asm[p-1]
+	}
+	return p - 1
+}
+func posOf(identity int) int {
+	for p, i := range asm {
+		if i == identity {
+			return p + 1
+		}
+	}
+	return identity + 1
+}
+func sr(r int) string { return fmt.Sprintf("sr%d", ident(r)) }
+func op(o int) string { return fmt.Sprintf("op%d", ident(o)) }
 
 func (r *run) reset() {
 	r.slotArr = map[[2]int]*gate.Arrival{}
@@ -280,6 +318,9 @@ func (r *run) reset() {
 }
 
 func (r *run) violation(what string, expected, observed any, known string) {
+	if known == "" && r.tainted {
+		known = knownLatePub
+	}
 	r.violated = true
 	r.res.Violations = append(r.res.Violations, mbt.Violation{Property: "C01", Behaviour: r.bi, Step: r.step, What: what, Expected: expected, Observed: observed, Known: known})
 }
@@ -350,6 +391,10 @@ func (r *run) awaitGivens(n int) error {
 }
 
 func (r *run) awaitPub(n int) error {
+	if r.restartsAt == nil {
+		r.restartsAt = map[int]int{}
+	}
+	r.restartsAt[n] = r.nrestarts
 	a, err := r.c.Sched().Await(func(g *gate.Arrival) bool { return g.Point == cluster.PStoreWrite && int(call(g).Ckpt) == n }, wait)
 	if err != nil {
 		return driftf("completed checkpoint %d was not handed to storage: %v", n, err)
@@ -363,14 +408,16 @@ func (r *run) boot(w int, restart bool) (uint64, error) {
 	if err := r.c.SetWorkers(w); err != nil {
 		return 0, err
 	}
-	if m := r.cf.tuneFor(r.bi + r.turn); m != 0 {
+	if m := r.cf.tuneFor(r.salt + r.turn); m != 0 {
 		r.res.Count("tunedGenerations", 1)
 	}
 	r.turn++
 	mark := len(r.c.Log(0))
 	var restored uint64
 	var err error
-	if restart {
+	if restart && r.cf.survive {
+		restored, err = r.c.RestartSurvivors(cluster.SurviveOptions{NewIDsFirst: r.salt%2 == 1})
+	} else if restart {
 		restored, err = r.c.Restart()
 	} else {
 		restored, err = r.c.Boot()
@@ -379,11 +426,49 @@ func (r *run) boot(w int, restart bool) (uint64, error) {
 	if err == nil {
 		r.w = w
 		r.genW[r.c.Gen()] = w
+		asm = nil
+		if r.cf.survive {
+			asm = r.c.Assembly()
+			r.accountSurvivors(mark)
+			if restart {
+				// the database instances the redeployed survivors dropped are garbage now: let the collector run
+				// their table cleanups (dkv deletes a table file when the last Table object naming it is collected)
+				// at this point instead of at some later one
+				for i := 0; i < 2; i++ {
+					runtime.GC()
+					time.Sleep(200 * time.Microsecond)
+				}
+			}
+		}
 		countShapes(r.c, mark, r.res)
 	} else if why := restoreFailure(r.c, mark); why != "" && restart {
 		r.violation("restart from the newest completed checkpoint failed: "+why, nil, nil, "")
 	}
 	return restored, err
+}
+
+// accountSurvivors counts what the survivors restart since log index mark did: operators deployed again in place,
+// at the same or at another position (another key-group range, another operator's checkpoint).
+func (r *run) accountSurvivors(mark int) {
+	for _, o := range r.c.Log(mark) {
+		if o.Kind != "op.deployed" {
+			continue
+		}
+		p, seen := r.lastPos[o.Node]
+		now := posOf(opIdx(o.Node))
+		if seen {
+			r.res.Count("redeployedInPlace", 1)
+			if p != now {
+				r.res.Count("redeployedAtAnotherPosition", 1)
+			}
+		} else {
+			r.res.Count("replacements", 1)
+		}
+	}
+	r.lastPos = map[string]int{}
+	for p, i := range asm {
+		r.lastPos[fmt.Sprintf("op%d", i)] = p + 1
+	}
 }
 
 // settle: with tuned memtables, let the flushes and compactions the writes so far started finish (seeded
@@ -428,7 +513,7 @@ func (r *run) exec(st mbt.Step) error {
 			}
 			var idx int
 			fmt.Sscanf(c.To, "sr%d", &idx)
-			r.startArr[idx+1] = a
+			r.startArr[posOf(idx)] = a
 		}
 	case "SrStart":
 		rr := st.Int("r")
@@ -561,6 +646,10 @@ func (r *run) exec(st mbt.Step) error {
 			return driftf("Publish: write failed: %v", call(a).Err)
 		}
 		_ = from
+		if r.restartsAt[st.Int("n")] != r.nrestarts {
+			r.res.Count("publishedAfterRestart", 1) // the surviving job's write of a checkpoint of an earlier assembly lands now
+			r.tainted = true
+		}
 		if st.Bool("sup") {
 			// a write that lands after a newer one: the job removes the file again, nothing refers to it
 			r.res.Count("supersededWrites", 1)
@@ -576,7 +665,7 @@ func (r *run) exec(st mbt.Step) error {
 			if n == 0 {
 				nodes = append(nodes, "job")
 			} else {
-				nodes = append(nodes, fmt.Sprintf("w%d", n-1))
+				nodes = append(nodes, fmt.Sprintf("w%d", ident(n)))
 			}
 		}
 		if len(r.pubArr) > 0 {
@@ -588,6 +677,18 @@ func (r *run) exec(st mbt.Step) error {
 		if st.Int("w") != r.w {
 			r.res.Count(fmt.Sprintf("rescale%dto%d", r.w, st.Int("w")), 1)
 		}
+		jobSurvives := r.cf.survive && !r.dead[0]
+		if r.cf.survive {
+			// calls of this assembly still parked at the gate of an operator that stays alive: late messages
+			for _, x := range st.List("late") {
+				m := mbt.Step(x.(map[string]any))
+				key := [2]int{m.Int("r"), m.Int("o")}
+				if a := r.slotArr[key]; a != nil {
+					r.late[[3]int{m.Int("g"), m.Int("r"), m.Int("o")}] = a
+				}
+			}
+		}
+		oldWrites := r.pubArr
 		restored, err := r.boot(st.Int("w"), true)
 		if err != nil {
 			if r.violated {
@@ -600,14 +701,67 @@ func (r *run) exec(st mbt.Step) error {
 			return err
 		}
 		r.reset()
+		if jobSurvives {
+			r.res.Count("jobSurvived", 1)
+		}
+		if jobSurvives && r.latePub {
+			r.pubArr = oldWrites // the model (code as it is) lets them land later: Publish steps after this Restart
+		} else if jobSurvives {
+			// snapshot writes of the old assembly still parked at the store gate land now. By design the surviving
+			// job gives them up (the file is removed again or never written); if it publishes one nevertheless, that
+			// checkpoint is what the next recovery loads and is judged like every published checkpoint
+			for n, a := range oldWrites {
+				a.Release()
+				waitDone(call(a), "late snapshot write")
+				time.Sleep(2 * time.Millisecond)
+				kept := false
+				for _, o := range r.c.Published() {
+					if int(o.Ckpt) == n && o.Gen == r.c.Gen() {
+						if _, err := os.Stat(o.Text); err == nil {
+							kept = true
+						}
+					}
+				}
+				if kept {
+					r.res.Count("publishedAfterRestart", 1)
+					r.tainted = true
+					r.checkPublished(mbt.Step{"n": float64(n)})
+				} else {
+					r.res.Count("writesGivenUp", 1)
+				}
+			}
+			r.c.ForgetRetention()
+		}
+		r.givens = len(r.c.Givens(0))
 		r.havePrev = restored != 0
 		r.res.Count("restarts", 1)
+		r.nrestarts++
 		if int(restored) != st.Int("n") {
 			return driftf("Restart: job restored checkpoint %d, model %d", restored, st.Int("n"))
 		}
 		for _, o := range st.Ints("lost") {
 			r.lostOps[o-1] = true
 		}
+	case "LateDeliver":
+		key := [3]int{st.Int("g"), st.Int("r"), st.Int("o")}
+		a := r.late[key]
+		if a == nil {
+			return driftf("LateDeliver: no such call parked")
+		}
+		delete(r.late, key)
+		a.Release()
+		select {
+		case <-call(a).Done():
+			if call(a).Err == nil {
+				r.res.Count("lateAccepted", 1) // the callee answered "ok"; whether it changed state is judged by the property
+			} else {
+				r.res.Count("lateRejected", 1)
+			}
+		case <-time.After(100 * time.Millisecond):
+			r.res.Count("lateParked", 1)
+		}
+		r.res.Count("lateDelivered", 1)
+		r.givens = len(r.c.Givens(0))
 	default:
 		return fmt.Errorf("unknown action %q", st.Str("a"))
 	}
@@ -668,7 +822,8 @@ func (r *run) judgeCheckpoint(id uint64, read func() (*cluster.CheckpointState, 
 	}
 	for k, where := range cs.Where {
 		// len(cs.Ops) = the worker count of the generation that took the checkpoint
-		if len(where) != 1 || cluster.OpIndexOfID(cs.Ops[where[0]].Op) != cluster.OwnerOf(r.cf.KeyGroups, len(cs.Ops), k) {
+		kg := cluster.KeyGroupOf(r.cf.KeyGroups, k)
+		if len(where) != 1 || kg < cs.Ops[where[0]].Start || kg >= cs.Ops[where[0]].End {
 			r.violation(fmt.Sprintf("state of key %s is not held (only) by its owner in checkpoint %d", k, id), nil, where, "")
 		}
 	}
@@ -748,7 +903,7 @@ func (r *run) finish() {
 		}
 		if time.Now().After(deadline) {
 			r.judgeGivens()
-			r.res.Errors = append(r.res.Errors, fmt.Sprintf("b%d: completion: readers did not drain: %v", r.bi, cur))
+			r.res.Errors = append(r.res.Errors, fmt.Sprintf("b%d: completion: readers did not drain: %v%s", r.bi, cur, r.exits()))
 			return
 		}
 		time.Sleep(200 * time.Microsecond)
@@ -790,6 +945,20 @@ func (r *run) finish() {
 	r.res.Errors = append(r.res.Errors, fmt.Sprintf("b%d: completion: no final checkpoint with drained cursors was published", r.bi))
 }
 
+// exits describes the nodes that ended by themselves or panicked (diagnostics for machinery errors).
+func (r *run) exits() string {
+	out := ""
+	for _, o := range r.c.Log(0) {
+		if (o.Kind == "exit" && o.Text != "") || o.Kind == "panic" {
+			out += fmt.Sprintf(" {%d %s %s: %s}", o.Seq, o.Kind, o.Node, o.Text)
+		}
+	}
+	if out != "" {
+		out = "; nodes that ended by themselves:" + out + fmt.Sprintf(" (assembly %v)", r.c.Assembly())
+	}
+	return out
+}
+
 // judgeGivens: every handler invocation of the whole execution (all
 // generations) must have been given the failure-free state of its key.
 func (r *run) judgeGivens() {
@@ -813,7 +982,12 @@ func (r *run) judgeGiven(givens []cluster.Given, w int) {
 				map[string]int{"cnt": 0, "last": want}, map[string]int{"cnt": g.SeenCnt, "last": g.SeenLast}, r.knownFor([]string{g.Rec.Key}))
 			return
 		}
-		if cluster.OwnerOf(r.cf.KeyGroups, w, g.Rec.Key) != opIdx(g.Op) {
+		if r.cf.survive {
+			if cluster.OwnerOf(r.cf.KeyGroups, g.Of, g.Rec.Key) != g.Pos {
+				r.violation(fmt.Sprintf("record %s of key %s was processed by %s at position %d of %d, not by the key's owner", g.Rec.ID(), g.Rec.Key, g.Op, g.Pos, g.Of), nil, nil, "")
+				return
+			}
+		} else if cluster.OwnerOf(r.cf.KeyGroups, w, g.Rec.Key) != opIdx(g.Op) {
 			r.violation(fmt.Sprintf("record %s of key %s was processed by %s, not by the key's owner among %d workers", g.Rec.ID(), g.Rec.Key, g.Op, w), nil, nil, "")
 			return
 		}
@@ -826,6 +1000,14 @@ func opIdx(label string) int {
 	return i
 }
 
+// logTo: RECOVERY_LOG=1 sends the slog output of the code under test to stderr (debugging).
+func logTo() io.Writer {
+	if os.Getenv("RECOVERY_LOG") != "" {
+		return os.Stderr
+	}
+	return nil
+}
+
 func replay(bi int, beh []mbt.Step, cf *conf, res *mbt.Result, seed int64) {
 	w0 := cf.W
 	if len(beh) > 0 && beh[0].Has("w") && beh[0].Str("a") != "Restart" {
@@ -836,12 +1018,13 @@ func replay(bi int, beh []mbt.Step, cf *conf, res *mbt.Result, seed int64) {
 	c, err := cluster.New(cluster.Options{
 		Workers: w0, KeyGroups: cf.KeyGroups, Splits: cf.splits, OpBatch: cf.B,
 		Gates:    []string{cluster.POpEvent, cluster.PSrStartCkpt, cluster.PJobSrAck, cluster.PJobOpAck, cluster.PStoreWrite},
-		LogCalls: os.Getenv("RECOVERY_DUMP_DIR") != "",
+		LogCalls: os.Getenv("RECOVERY_DUMP_DIR") != "", WorkerProcesses: cf.survive, Log: logTo(),
 	})
 	if err != nil {
 		res.Errors = append(res.Errors, err.Error())
 		return
 	}
+	asm = nil
 	defer c.Close()
 	if d := os.Getenv("RECOVERY_DUMP_DIR"); d != "" {
 		defer func() {
@@ -849,7 +1032,7 @@ func replay(bi int, beh []mbt.Step, cf *conf, res *mbt.Result, seed int64) {
 			os.WriteFile(fmt.Sprintf("%s/beh-%03d.json", d, bi), b, 0o644)
 		}()
 	}
-	r := &run{cf: cf, c: c, bi: bi, res: res, lostOps: map[int]bool{}, genW: map[int]int{}, rng: rand.New(rand.NewSource(seed*7919 + int64(bi)))}
+	r := &run{cf: cf, c: c, bi: bi, res: res, lostOps: map[int]bool{}, genW: map[int]int{}, late: map[[3]int]*gate.Arrival{}, lastPos: map[string]int{}, salt: len(beh), latePub: cf.latePub, rng: rand.New(rand.NewSource(seed*7919 + int64(len(beh))))}
 	r.reset()
 	if _, err := r.boot(w0, false); err != nil {
 		res.Errors = append(res.Errors, fmt.Sprintf("b%d: boot: %v", bi, err))
@@ -1417,6 +1600,15 @@ func main() {
 	if err != nil {
 		fmt.Fprintln(os.Stderr, err)
 		os.Exit(2)
+	}
+	if in.CfgStr("Mode", "replay") != "trace" && cf.survive {
+		// survivors arm: supervised replay (chunks of behaviours in child processes), because what the code under
+		// test does wrong after an in-place redeploy may be a panic on one of its own goroutines - that is then
+		// attributed to the behaviour that provoked it instead of taking the whole stage down
+		mbt.Main(func(bi int, beh []mbt.Step, in *mbt.Input, res *mbt.Result) {
+			replay(bi, beh, cf, res, in.Seed)
+		})
+		return
 	}
 	res := &mbt.Result{}
 	// time budget: on a healthy tree a stage takes seconds; a broken tree makes many steps run into
